@@ -335,3 +335,34 @@ func H_C09_odd() {
 		vxrt.Assert(err == nil && got == e[1] && !strings.Contains(out, vxBullet+e[0]+"\n"), "C07:addressed-entry-value-unchanged")
 	}
 }
+
+// H_C09_empty: a snapshot file a test addressed but that holds no complete entry (empty, or an
+// entry that lost its end marker), in a mode where the missing snapshot may not be created:
+// Clean leaves the file alone outside clean mode - it is in use, and whatever it holds is not
+// Clean's to delete without permission.
+func H_C09_empty() {
+	vxrt.CISymbolic()
+	vxrt.EnvFixed("NO_COLOR", "1")
+	vxrt.EnvSymbolic("UPDATE_SNAPS", 5)
+	vxrt.Flag("test.run", "")
+	vxrt.Flag("test.count", "1")
+	dir := vxrt.Dir()
+	path := dir + "/e.snap"
+	content := []string{"", "\n[TestE - 1]\nhalf written", "\n\n"}[vxrt.Choice("file-content", 3)]
+	vxWriteFile(path, content)
+	vxWriteFile(dir+"/f.snap", vxFrame("TestF - 1", "f"))
+	ce := WithConfig(Dir(dir), Filename("e"), Update(false))
+	cf := WithConfig(Dir(dir), Filename("f"), Update(false))
+	te, tf := vxNewT("TestE"), vxNewT("TestF")
+	ce.MatchSnapshot(te, "value")
+	cf.MatchSnapshot(tf, "f")
+	te.end()
+	tf.end()
+	vxrt.Assert(len(te.errors) == 1 && len(tf.errors) == 0 && vxReadFile(path) == content, "setup:missing-snapshot-fails")
+	ci, env := ciinfo.IsCI, os.Getenv("UPDATE_SNAPS")
+	cleanMode := !ci && (env == "true" || env == "clean")
+	Clean(nil)
+	if !cleanMode {
+		vxrt.Assert(vxReadFile(path) == content, "C09:report-mode-writes-nothing")
+	}
+}
